@@ -899,6 +899,11 @@ func Vacuum(ctx context.Context, tableName string, beforeTime time.Time) error {
 	if !table.S3Options.ReadOnly && table.Tree.Root.IsDirty() {
 		return fmt.Errorf("table has uncommitted changes: %s", tableName)
 	}
+	if table.txStart != nil {
+		// deleted storage cannot be rolled back: a ROLLBACK would restore a tree
+		// whose objects are gone
+		return fmt.Errorf("table is in a transaction: %s", tableName)
+	}
 	db, err := table.Tree.Root.Clone(ctx)
 	if err != nil {
 		return fmt.Errorf("clone: %w", err)
